@@ -6,6 +6,7 @@
 //   kind 4  AnamEmpirical    normal-score fit, forward / backward
 //   kind 5  Rotation         setAngles / setMatrixDirect, rotateDirect then rotateInverse
 //   kind 6  hermiteCondExpElement(y, s, psi)   (run under AddressSanitizer by the check)
+//   kind 10 Hermite factors by ranks: hermitePolynomials(y, r, ifacs), AnamHermite::z2factor, AAnam::rawToFactorByRanks, rawToFactor
 //   kind 9  AnamDiscreteDD fit of a fresh object (no crash), AnamDiscreteIR fit and factors (run with the ASan batch)
 //   kind 8  AnamHermite::fitFromArray: coefficients, the oracle arrays (classes, quantiles, cdf, pdf), re-fit of a used object
 //   kind 7  AnamEmpirical / AnamHermite fit of degenerate data (constant, single, all undefined), under AddressSanitizer
@@ -243,6 +244,30 @@ static std::string run(const Sx& c) {
   if (kind == 3) return runNormalScore(c);
   if (kind == 4) return runAnamEmpirical(c);
   if (kind == 5) return runRotation(c);
+  if (kind == 10) {   // (10 nbpoly y r ifacs data sel): the by-ranks entry points of the Hermite factors
+    int nb = (int) c[1].i(); double y = c[2].d(), r = c[3].d(); VectorInt ifacs = c[4].vi();
+    std::ostringstream o;
+    o << "(" << vecStr(hermitePolynomials(y, r, ifacs));
+    AnamHermite anam(nb);
+    o << " " << vecStr(anam.z2factor(y, ifacs));
+    // Db level: rawToFactorByRanks (ranks as given) and rawToFactor (ranks 1..n)
+    VectorDouble data = c[5].vd(TEST); int n = (int) data.size();
+    for (int pass = 0; pass < 2; pass++) {
+      VectorDouble tab = data; VectorString names = {"z"}, locs = {"z1"};
+      if (c[6].size() > 0) { for (auto& x : c[6].l) tab.push_back(x.b() ? 1. : 0.); names.push_back("sel"); locs.push_back("sel"); }
+      Db* db = Db::createFromSamples(n, ELoadBy::COLUMN, tab, names, locs, false);
+      int nc0 = db->getColumnNumber();
+      int nfac = (int) ifacs.size();
+      int rc = (pass == 0) ? anam.rawToFactorByRanks(db, ifacs) : anam.rawToFactor(db, nfac);
+      int nnew = db->getColumnNumber() - nc0;
+      o << " " << rc << " " << nnew << " (";
+      for (int k = 0; k < nnew; k++) o << (k ? " " : "") << colStr(db, nc0 + k);
+      o << ")";
+      delete db;
+    }
+    o << ")";
+    return o.str();
+  }
   if (kind == 9) {   // (9 which data zcuts): which 0 = AnamDiscreteDD fit of a fresh object, 1 = AnamDiscreteIR fit + factors of every value
     int which = (int) c[1].i(); VectorDouble data = c[2].vd(TEST), zc = c[3].vd();
     std::ostringstream o; int rc = -9, threw = 0;
